@@ -397,19 +397,26 @@ def w2dbm(w):
 
 
 # --------------------------------------------------------------------------------------------- synthetic two-ROADM line
-def line_topology(spans, roadm_a=None, roadm_b=None, amps=None, fiber_type='SSMF', amp_type='Edfa', reverse=True):
+def line_topology(spans, roadm_a=None, roadm_b=None, amps=None, fiber_type='SSMF', amp_type='Edfa', reverse=True,
+                  ingress='roadm'):
     """ROADM A -> [amp 0] -> span 1 -> [amp 1] -> ... -> span n -> [amp n] -> ROADM B (and a plain reverse fibre).
 
     spans: list of spans, each a list of segments dict(kind='fiber', length_km, loss_coef, con_in, con_out, att_in,
            type_variety) or dict(kind='fused', loss)
     amps:  {index: element-config-dict}; an index absent from `amps` is left to auto-design (which inserts it)
+    ingress='trx': the line starts directly at transceiver A (no ROADM A, no booster, no reverse fibre)
     """
     amps = amps or {}
     els = [{'uid': 'trx A', 'type': 'Transceiver'}, {'uid': 'trx B', 'type': 'Transceiver'},
-           dict({'uid': 'roadm A', 'type': 'Roadm'}, **(roadm_a or {})),
            dict({'uid': 'roadm B', 'type': 'Roadm'}, **(roadm_b or {}))]
-    cx = [('trx A', 'roadm A'), ('roadm A', 'trx A'), ('trx B', 'roadm B'), ('roadm B', 'trx B')]
-    prev = 'roadm A'
+    cx = [('trx B', 'roadm B'), ('roadm B', 'trx B')]
+    prev = 'trx A'
+    if ingress == 'roadm':
+        els.append(dict({'uid': 'roadm A', 'type': 'Roadm'}, **(roadm_a or {})))
+        cx += [('trx A', 'roadm A'), ('roadm A', 'trx A')]
+        prev = 'roadm A'
+    else:
+        reverse = False
 
     def put_amp(i):
         nonlocal prev
@@ -418,7 +425,8 @@ def line_topology(spans, roadm_a=None, roadm_b=None, amps=None, fiber_type='SSMF
             els.append(cfg)
             cx.append((prev, cfg['uid']))
             prev = cfg['uid']
-    put_amp(0)
+    if ingress == 'roadm':
+        put_amp(0)
     for k, span in enumerate(spans, start=1):
         for j, sg in enumerate(span, start=1):
             if sg['kind'] == 'fused':
@@ -581,13 +589,18 @@ def mhz(f):
 
 
 def model_nf_udb(eq, name, gain, cache):
-    """the implementation's own noise figure of library model `name` at `gain` (None when it has none);
-    `cache` lives as long as the equipment dict it was computed for"""
-    from gnpy.core.network import edfa_nf
+    """noise figure of library model `name` of THIS equipment library at `gain`, from the implementation's amplifier
+    noise model (an Edfa element built from the library entry, as the design does) - evaluated here, on this library,
+    not read back from anything the selection code may have kept from an earlier design.  None when there is none.
+    `cache` lives as long as the equipment dict it was computed for."""
+    from gnpy.core import elements as E
     key = (name, round(gain, 9))
     if key not in cache:
         try:
-            v = float(edfa_nf(gain, eq['Edfa'][name]))
+            amp = E.Edfa(uid='verif NF', params=eq['Edfa'][name].__dict__,
+                         operational={'gain_target': gain, 'tilt_target': 0})
+            amp.pin_db, amp.nch, amp.slot_width = 0, 88, 50e9          # the reference load of the selection
+            v = float(amp._calc_nf(True))
             cache[key] = None if math.isnan(v) else udb(v)
         except Exception:                                              # noqa
             cache[key] = None
